@@ -50,6 +50,7 @@ pub struct Aggregate {
     pub case_digests: Vec<(u64, u64)>,
     pub violations: Vec<(u64, String, String, String)>, // index, class, detail, raw path
     pub killed: Vec<(u64, String)>,
+    pub stopped_early: bool,
     pub vacuous_reasons: BTreeMap<String, u64>,
 }
 
@@ -205,6 +206,17 @@ pub fn run_workers(args: &CheckArgs) -> Aggregate {
             }
             Err(mpsc::RecvTimeoutError::Timeout) => {}
             Err(mpsc::RecvTimeoutError::Disconnected) => break,
+        }
+        // Enough is enough: with hundreds of failing cases the search has made its point, and
+        // every killed case costs up to the wall-clock cap.
+        if agg.killed.len() >= 24 || agg.violations.len() >= 2000 {
+            agg.stopped_early = true;
+            for (_, w) in workers.iter_mut() {
+                let _ = w.child.kill();
+                let _ = w.child.wait();
+            }
+            workers.clear();
+            break;
         }
         // Watchdog. The clock is only read here, and its only effect is to kill a run.
         let overdue: Vec<usize> = workers
@@ -488,12 +500,14 @@ pub fn check(args: &CheckArgs) -> i32 {
     }
     let replay_dir = format!("{}/replays", args.verif_dir);
     let mut group_summary = vec![];
+    let mut minimised_groups = 0;
     for (sig, members) in &groups {
         let (index, raw_path) = &members[0];
         let final_path = format!("{replay_dir}/{}-{}-{}.json", args.property, args.seed, index);
         let mut sig_final = sig.clone();
         let history_dependent = sig.contains("differs-in-fresh-process");
-        if args.minimise && !history_dependent {
+        minimised_groups += 1;
+        if args.minimise && !history_dependent && minimised_groups <= 8 {
             let (code, out) = run_child(
                 &["minimise", raw_path, &final_path],
                 Duration::from_secs(180),
@@ -599,6 +613,7 @@ pub fn check(args: &CheckArgs) -> i32 {
             "probes_never_hit": zero_probes,
             "counters": agg.counters,
             "killed": agg.killed,
+            "stopped_early_because_of_many_failures": agg.stopped_early,
             "regressions_replayed": regressions_run,
             "cases_rerun_alone_in_a_fresh_process": fresh_compared,
             "violation_groups": group_summary,
